@@ -15,7 +15,7 @@ ENGINES = {
 
 PROP = {
     "engines": ["btree"],
-    "lean_modules": ["AxVerif.Model.BTree", "AxVerif.Model.Balance", "AxVerif.Lemmas.BTree", "AxVerif.Lemmas.Balance"],
+    "lean_modules": ["AxVerif.Model.BTree", "AxVerif.Model.Balance", "AxVerif.Model.Slotted", "AxVerif.Lemmas.BTree", "AxVerif.Lemmas.Balance", "AxVerif.Lemmas.Slotted"],
     "rule": "cases = operation sequences (insert/update/upsert/remove by key bytes and by tuple/search by key bytes and by tuple/scan) on a real "
             "Btree over a raw pager: orders ascending, descending, zig-zag, interleaved, random, duplicate-heavy, delete-all-then-reinsert, "
             "churn, grow/shrink updates; key types u64, i64, text, composite (i64,text), long text keys that spill into overflow pages; "
@@ -37,14 +37,17 @@ PROP = {
         "the facade clears the tree's accessor (latches + traversal stack) after every call, as the repo's own tree tests do",
         "min page size of the engine is 4096 (PAGE_ALIGNMENT), so height >= 4 needs ~1500 keys; heights up to 8 occur with large cells",
     ],
-    "partial": "checkTree_sound is proved in full. Not proved (by design): that the real insert/update/remove produce the dump they produce "
-               "(the rebalancer is validated by judging every dump, not verified). bestDistribution: only sum of counts = number of cells, the "
-               "greedy phase's load bound, and termination of the fix-up loop are proved; `bestDistribution_loads_statement` (no page over "
-               "`usable` after the fix-up) and `splitCells_both_nonempty_statement` are false of the code and refuted by witness theorems. "
-               "Slotted-page accounting (Model/Slotted.lean of the design) is not modelled; its two defects found here were fixed in the code.",
+    "partial": "checkTree_sound and checkTree_sound_backward are proved in full. Not proved (by design): that the real insert/update/remove "
+               "produce the dump they produce (the rebalancer is validated by judging every dump, not verified). bestDistribution: only sum of "
+               "counts = number of cells, the greedy phase's load bound, and termination of the fix-up loop are proved; "
+               "`bestDistribution_loads_statement` (no page over `usable` after the fix-up) and `splitCells_both_nonempty_statement` are false of "
+               "the code and refuted by witness theorems. Slotted page: the accounting invariant is checked on every page of every dump "
+               "(wfB, sound w.r.t. Wf) and proved invariant under remove, in-place shrinking replace and insert-into-gap; defragment, drain and "
+               "the remove+insert path of replace are not modelled, and the three modelled operations are not tied differentially to buffer.rs "
+               "(only their invariant is, through the dumps).",
     "trusted": [
         "facade crates/axmos-db/src/verif/btree.rs (page parser, reassembly for dumps) and the engine's canonicalisation (key index <-> key, payload identity, hashes)",
-        "Lean driver: parsing of observations and the page table kept across the deltas of one sequence",
+        "Lean driver: parsing of observations and the page / slot-accounting tables kept across the deltas of one sequence",
     ],
 }
 
